@@ -6,7 +6,7 @@ class UnimplementedError(Exception):
 class GetSetParamsError(Exception):
     pass
 
-class ConvergenceWarning(Warning):
+class ConvergenceWarning(UserWarning):
     """
     Warning to be raised if the convergence of an algorithm is not achieved
     """
